@@ -19,8 +19,8 @@ def loadable(status):
 def _(worker, task, state):
     requires(task in state.edge_i and task in state.task_o)
     ins = state.edge_i[task]
-    at_worker = lambda d: worker in state.worker2ds and d in state.worker2ds[worker] and loadable(state.worker2ds[worker][d])
-    at_host = lambda d: worker.host in state.host2ds and d in state.host2ds[worker.host] and loadable(state.host2ds[worker.host][d])
+    on_worker = lambda d: worker in state.worker2ds and d in state.worker2ds[worker] and loadable(state.worker2ds[worker][d])
+    on_host = lambda d: worker.host in state.host2ds and d in state.host2ds[worker.host] and loadable(state.host2ds[worker.host][d])
     holds = lambda d, h: d in state.ds2host and h in state.ds2host[d] and state.ds2host[d][h] == DatasetStatus.available
     rp = typed(result(), Assignment).prep
     # the assignment is for exactly this worker, this task, this task's outputs
@@ -30,23 +30,23 @@ def _(worker, task, state):
     # C04: "every transfer ... names a source host that holds the dataset at that moment": a preparation entry names an input of the task
     # and either the worker's own host (where the dataset is present or on its way) or a host that HOLDS it (status available) on entry
     ensures(forall(int, lambda i: implies(0 <= i and i < len(rp), rp[i][0] in ins
-                                          and ((rp[i][1] == worker.host and old(at_host(rp[i][0]))) or old(holds(rp[i][0], rp[i][1]))))),
+                                          and ((rp[i][1] == worker.host and old(on_host(rp[i][0]))) or old(holds(rp[i][0], rp[i][1]))))),
             tag="transfer-source-holds-the-dataset", top=True)
     # C02: "every dataset it consumes ... is either present on the target host or a transfer of it to that host has been commanded"
-    ensures(forall(DatasetId, lambda d: implies(d in ins, old(at_worker(d)) or exists(int, lambda i: 0 <= i and i < len(rp) and rp[i][0] == d))),
+    ensures(forall(DatasetId, lambda d: implies(d in ins, old(on_worker(d)) or exists(int, lambda i: 0 <= i and i < len(rp) and rp[i][0] == d))),
             tag="every-input-present-or-requested", top=True)
     # an input that no host holds can not be prepared: the assignment is refused (the scheduler's bookkeeping is wrong), never issued
-    raises(ValueError, when=exists(DatasetId, lambda d: d in ins and not at_worker(d) and not at_host(d)
+    raises(ValueError, when=exists(DatasetId, lambda d: d in ins and not on_worker(d) and not on_host(d)
                                    and not exists(str, lambda h: holds(d, h))), tag="input-held-nowhere-is-refused", top=True)
     # loop over the inputs (a set: each input once).  `prep` is the function's own list
     invariant(0, forall(int, lambda i: implies(0 <= i and i < len(prep), prep[i][0] in loop0_seen
-                                               and ((prep[i][1] == worker.host and old(at_host(prep[i][0]))) or old(holds(prep[i][0], prep[i][1]))))),
+                                               and ((prep[i][1] == worker.host and old(on_host(prep[i][0]))) or old(holds(prep[i][0], prep[i][1]))))),
               tag="entries-so-far-are-justified")
-    invariant(0, forall(DatasetId, lambda d: implies(d in loop0_seen, old(at_worker(d)) or exists(int, lambda i: 0 <= i and i < len(prep) and prep[i][0] == d))),
+    invariant(0, forall(DatasetId, lambda d: implies(d in loop0_seen, old(on_worker(d)) or exists(int, lambda i: 0 <= i and i < len(prep) and prep[i][0] == d))),
               tag="inputs-so-far-are-covered")
     # what the loop has NOT visited yet is as on entry (it only marks visited inputs as 'preparing' at the worker's host)
     invariant(0, forall(DatasetId, lambda d: implies(d in ins and d not in loop0_seen,
-                                                     at_worker(d) == old(at_worker(d)) and at_host(d) == old(at_host(d))
+                                                     on_worker(d) == old(on_worker(d)) and on_host(d) == old(on_host(d))
                                                      and forall(str, lambda h: holds(d, h) == old(holds(d, h))))),
               tag="unvisited-inputs-unchanged")
     loop_modifies(0, values_of(state.host2ds), values_of(state.ds2host), values_of(state.worker2ds))
